@@ -173,6 +173,22 @@ def run(repo, rep, tier):
         joins = [s for s in cfg.stmts() if isinstance(s, ast.Expr) and
                  isinstance(s.value, ast.Call) and
                  dotted(s.value.func) == thread_field + '.join']
+        # a join with a timeout returns while the thread may still run: it
+        # does not establish that the thread has ended
+        timed = [s for s in joins if s.value.args or s.value.keywords]
+        for s in timed:
+            r2.sites += 1
+            r2.ob(False, '%s:%s' % (f.name, norm(s)))
+            rep.finding(r2, f.qualname, norm(s), 'join-with-timeout', LS,
+                        s.lineno,
+                        '%s only waits for a limited time: if a callback is '
+                        'still running, stop() returns with the callback '
+                        'thread alive (it still reads the fields that are '
+                        'cleared next, and after a prompt start() it '
+                        'consumes the new queue concurrently with the new '
+                        'thread: indications are delivered out of order)'
+                        % norm(s))
+        joins = [s for s in joins if s not in timed]
         for s in cfg.stmts():
             if isinstance(s, ast.Assign) and \
                     isinstance(s.value, ast.Constant) and \
